@@ -712,21 +712,24 @@ Proof.
   - apply L. r5.
   - destruct (task_done st1); [exact R1|]. apply L. eapply rrel_trans; [|apply rrel_task_cancel].
     unfold note_ext. destruct (in_shield _); r5.
+  - destruct (nth_scope st1 k) as [sid|]; [|exact R1]. apply L. eapply rrel_trans; [apply rrel_scope_cancel|r5].
 Qed.
 
 Lemma inject_nr : forall it c rd nh, cres (fst (inject it c rd nh)) = cres rd /\
-  (forall h, In h (fst (inject it c rd nh)) -> In h rd \/ h_kind h = HExt).
+  (forall h, In h (fst (inject it c rd nh)) -> In h rd \/ is_res h = false).
 Proof.
-  induction c as [|[n front] c IH]; intros rd nh; cbn [inject fst]; [split; auto|].
+  induction c as [|[[n front] act] c IH]; intros rd nh; cbn [inject fst]; [split; auto|].
   destruct (n =? it); [|apply IH].
+  set (hn := mkH nh (match act with 0 => HExt | S k => HActor k end) false).
+  assert (Hn : is_res hn = false) by (unfold hn, is_res; destruct act; reflexivity).
   destruct front.
-  - destruct (IH (mkH nh HExt false :: rd) (S nh)) as [A B]. split.
-    + rewrite A. unfold cres. simpl. reflexivity.
-    + intros h Hh. destruct (B h Hh) as [[E|Hin]|Hk]; [subst h; right; reflexivity|left; exact Hin|right; exact Hk].
-  - destruct (IH (rd ++ [mkH nh HExt false]) (S nh)) as [A B]. split.
-    + rewrite A, cres_app. unfold cres at 2. simpl. lia.
+  - destruct (IH (hn :: rd) (S nh)) as [A B]. split.
+    + rewrite A. unfold cres. simpl. rewrite Hn. reflexivity.
+    + intros h Hh. destruct (B h Hh) as [[E|Hin]|Hk]; [subst h; right; exact Hn|left; exact Hin|right; exact Hk].
+  - destruct (IH (rd ++ [hn]) (S nh)) as [A B]. split.
+    + rewrite A, cres_app. unfold cres at 2. simpl. rewrite Hn. simpl. lia.
     + intros h Hh. destruct (B h Hh) as [Hin|Hk]; [|right; exact Hk].
-      apply in_app_or in Hin. destruct Hin as [Hin|[E|[]]]; [left; exact Hin|subst h; right; reflexivity].
+      apply in_app_or in Hin. destruct Hin as [Hin|[E|[]]]; [left; exact Hin|subst h; right; exact Hn].
 Qed.
 
 Lemma move_due_nr : forall fuel now hp rd, Forall nr_t hp ->
@@ -766,7 +769,7 @@ Proof.
     - intros g Hg. rewrite Ew. apply Rc. unfold get_fut in *. rewrite Ef in Hg. exact Hg.
     - exact Hh. }
   assert (Hin1 : forall h, In h rd -> In h (ready st) \/ is_res h = false).
-  { intros h Hh. destruct (Ii h Hh) as [Hi|Hk]; [left; exact Hi|right; unfold is_res; rewrite Hk; reflexivity]. }
+  { intros h Hh. destruct (Ii h Hh) as [Hi|Hk]; [left; exact Hi|right; exact Hk]. }
   assert (Fin : forall st2, ready st2 = rd -> futs st2 = futs st -> t_waiter st2 = t_waiter st -> md st2 = md st -> rinv
      (let '(hp', rd') := move_due (length hp) (time st2) hp (ready st2) in
       set_todo (set_ready (set_heap st2 hp') rd') (length rd'))).
@@ -903,4 +906,6 @@ Proof.
     + apply L. r5.
     + destruct (task_done st1); [left; split; [exact Hm1|exact D1]|]. apply L. eapply rrel_trans; [|apply rrel_task_cancel].
       unfold note_ext. destruct (in_shield _); r5.
+    + destruct (nth_scope st1 k) as [sid|]; [|left; split; [exact Hm1|exact D1]].
+      apply L. eapply rrel_trans; [apply rrel_scope_cancel|r5].
 Qed.
